@@ -21,6 +21,7 @@
 
   Missing for the full C01: nothing can be added — the `SafeUpdate` side condition is exactly the defect.
 -/
+import CachedProofs.LayerB.Theorems
 import CachedProofs.Lemmas.Inv
 
 namespace Cached
